@@ -17,6 +17,7 @@ SPECS = {
     "tables": ("gen_tables", ["matid/data/symmetry_data.py"], ["MatidGen/AllGroups.lean", "MatidGen/SG/G001.lean", "MatidGen/SG/G230.lean"]),
     "centring": ("gen_centring", ["matid/symmetry/symmetryanalyzer.py"], ["MatidGen/Centring.lean"]),
     "wyckoff_rule": ("gen_wyckoff_rule", ["matid/symmetry/symmetryanalyzer.py"], ["MatidGen/WyckoffRule.lean"]),
+    "cluster_rule": ("gen_cluster_rule", ["matid/clustering/cluster.py"], ["MatidGen/ClusterRule.lean"]),
     "dim_rule": ("gen_dim_rule", ["matid/geometry/geometry.py"], ["MatidGen/DimRule.lean"]),
 }
 
